@@ -1,3 +1,5 @@
 -- root of the proof library: one module per property (theorems only) + helper lemmas
 import Proofs.C12
 import Proofs.C13
+import Proofs.C14
+import Proofs.C16
